@@ -4,10 +4,8 @@ package c10
 import (
 	"fmt"
 	"go/ast"
-	"go/constant"
 	"go/token"
 	"go/types"
-	"math"
 	"sort"
 	"strings"
 
@@ -53,8 +51,8 @@ func Run(c *core.Ctx) {
 	r := &rs{c, pk, pk.TypesInfo}
 	r.r1()
 	r.r2()
-	r.lengthDomain("decodeBulkBytes", "ErrBadRespBytesLen")
-	r.lengthDomain("decodeArray", "ErrBadRespArrayLen")
+	r.lengthDomain("decodeBulkBytes")
+	r.lengthDomain("decodeArray")
 	r.r4()
 	r.r5enc("encodeBulkBytes")
 	r.r5enc("encodeArray")
@@ -64,7 +62,9 @@ func Run(c *core.Ctx) {
 
 // ---- small helpers
 
-func (r *rs) isField(e ast.Expr, typ, field string) bool { return core.IsFieldNamed(r.info, e, typ, field) }
+func (r *rs) isField(e ast.Expr, typ, field string) bool {
+	return core.IsFieldNamed(r.info, e, typ, field)
+}
 
 func (r *rs) method(recv, name string) *core.Fn { return r.c.Func(pkg, recv, name) }
 
@@ -456,801 +456,4 @@ func orZero(s string) string {
 		return "0"
 	}
 	return s
-}
-
-// ---------------------------------------------------------------------------
-// R2 type-tag bijection
-
-type tagRef struct {
-	tag      byte
-	typ      string
-	dec, enc string
-}
-
-var tagTable = []tagRef{
-	{'+', "String", "decodeText", "encodeText"},
-	{'-', "Error", "decodeText", "encodeText"},
-	{':', "Int", "decodeInt", "encodeInt"},
-	{'$', "BulkBytes", "decodeBulkBytes", "encodeBulkBytes"},
-	{'*', "Array", "decodeArray", "encodeArray"},
-}
-
-// builtType: the named struct type T of the first &T{...} under n.
-func (r *rs) builtType(n ast.Node) string {
-	out := ""
-	core.Inspect(n, func(m ast.Node) bool {
-		if u, ok := m.(*ast.UnaryExpr); ok && u.Op == token.AND && out == "" {
-			if cl, ok := ast.Unparen(u.X).(*ast.CompositeLit); ok {
-				out = core.NamedTypeName(r.info.TypeOf(cl))
-			}
-		}
-		return out == ""
-	})
-	return out
-}
-
-func (r *rs) r2() {
-	c, info := r.c, r.info
-	// the constants
-	scope := r.pk.Types.Scope()
-	have := map[int64]string{}
-	for _, n := range scope.Names() {
-		if k, ok := scope.Lookup(n).(*types.Const); ok && core.NamedTypeName(k.Type()) == "respType" {
-			if v, exact := constant.Int64Val(constant.ToInt(k.Val())); exact {
-				have[v] = n
-			}
-		}
-	}
-	if len(have) == 0 {
-		c.Undecidedf("R2.tags", "constants", token.NoPos, "no constants of type respType found")
-		return
-	}
-	for _, t := range tagTable {
-		_, ok := have[int64(t.tag)]
-		c.Check("R2.tags", fmt.Sprintf("const/%s", t.typ), token.NoPos, ok,
-			fmt.Sprintf("a respType constant must have the value %q, the RESP marker of %s; without it that RESP type is neither recognised nor produced", t.tag, t.typ))
-	}
-	decodeResp, encodeResp := r.method("Decoder", "decodeResp"), r.method("encoder", "encodeResp")
-	encodeType, inline, decodeArray := r.method("encoder", "encodeType"), r.method("Decoder", "decodeSingleLineBulkBytesArray"), r.method("Decoder", "decodeArray")
-	decM, encM := map[string]*core.Fn{}, map[string]*core.Fn{}
-	okAnch := decodeResp != nil && encodeResp != nil && encodeType != nil && inline != nil && decodeArray != nil
-	for _, t := range tagTable {
-		if decM[t.dec] == nil {
-			decM[t.dec] = r.method("Decoder", t.dec)
-		}
-		if encM[t.enc] == nil {
-			encM[t.enc] = r.method("encoder", t.enc)
-		}
-		if decM[t.dec] == nil || encM[t.enc] == nil || scope.Lookup(t.typ) == nil {
-			okAnch = false
-		}
-	}
-	if !okAnch {
-		return
-	}
-	// decoder: switch over the value returned by decodeType
-	_, b := pat.Stmt("_t, _err = _d.decodeType()").Find(info, decodeResp.Decl.Body, nil)
-	var sw *ast.SwitchStmt
-	if b != nil {
-		core.Inspect(decodeResp.Decl.Body, func(m ast.Node) bool {
-			if s, ok := m.(*ast.SwitchStmt); ok && sw == nil && s.Tag != nil && pat.Same(info, s.Tag, b["_t"]) {
-				sw = s
-			}
-			return true
-		})
-	}
-	if sw == nil {
-		c.Undecidedf("R2.tags", "decode/switch", decodeResp.Decl.Pos(), "cannot find the switch over the result of decodeType in decodeResp")
-		return
-	}
-	type arm struct {
-		typ    string
-		callee *types.Func
-		pos    token.Pos
-	}
-	dec := map[int64]arm{}
-	var deflt *ast.CaseClause
-	for _, s := range sw.Body.List {
-		cc := s.(*ast.CaseClause)
-		if cc.List == nil {
-			deflt = cc
-			continue
-		}
-		a := arm{typ: r.builtType(cc), pos: cc.Pos()}
-		for _, call := range flow.FindCalls(cc, func(call *ast.CallExpr) bool { return true }) {
-			if f := core.CalleeFunc(info, call); f != nil && a.callee == nil && core.NamedTypeName(recvOf(f)) == "Decoder" {
-				a.callee = f
-			}
-		}
-		for _, e := range cc.List {
-			if v, ok := core.IntConst(info, e); ok {
-				dec[v] = a
-			} else {
-				c.Undecidedf("R2.tags", "decode/case", e.Pos(), "case label %s is not a constant", c.Src(e))
-			}
-		}
-	}
-	// encoder: type switch
-	var tsw *ast.TypeSwitchStmt
-	core.Inspect(encodeResp.Decl.Body, func(m ast.Node) bool {
-		if s, ok := m.(*ast.TypeSwitchStmt); ok && tsw == nil {
-			tsw = s
-		}
-		return true
-	})
-	if tsw == nil {
-		c.Undecidedf("R2.tags", "encode/switch", encodeResp.Decl.Pos(), "cannot find the type switch in encodeResp")
-		return
-	}
-	ge := cfgq.Of(c.Program, encodeResp)
-	type earm struct {
-		tag     int64
-		callee  *types.Func
-		ordered bool
-		pos     token.Pos
-	}
-	enc := map[string]earm{}
-	for _, s := range tsw.Body.List {
-		cc := s.(*ast.CaseClause)
-		if len(cc.List) != 1 {
-			continue
-		}
-		tn := core.NamedTypeName(info.TypeOf(cc.List[0]))
-		a := earm{tag: -1, pos: cc.Pos()}
-		var tagCall, bodyCall *ast.CallExpr
-		for _, call := range flow.FindCalls(cc, func(call *ast.CallExpr) bool { return true }) {
-			f := core.CalleeFunc(info, call)
-			if f == nil || core.NamedTypeName(recvOf(f)) != "encoder" {
-				continue
-			}
-			if f == encodeType.Obj && len(call.Args) == 1 && tagCall == nil {
-				if v, ok := core.IntConst(info, call.Args[0]); ok {
-					a.tag, tagCall = v, call
-				}
-			} else if bodyCall == nil {
-				a.callee, bodyCall = f, call
-			}
-		}
-		if tagCall != nil && bodyCall != nil {
-			if p, ok := ge.Find(bodyCall); ok {
-				a.ordered, _ = ge.Dominated(p, flow.CallOn(ge, func(call *ast.CallExpr) bool { return call == tagCall }))
-			}
-			// the payload is the matched value's field
-			if len(bodyCall.Args) != 1 || pat.Expr("_x.Value").Match(info, bodyCall.Args[0], nil) == nil {
-				a.callee = nil
-			}
-		}
-		enc[tn] = a
-	}
-	for _, t := range tagTable {
-		d, okd := dec[int64(t.tag)]
-		c.Check("R2.tags", "decode/"+t.typ, d.pos, okd && d.typ == t.typ && d.callee == decM[t.dec].Obj,
-			fmt.Sprintf("tag %q must build &%s{} and fill it through %s (found: type %q, decoder %v): otherwise a value encoded as %s comes back as something else", t.tag, t.typ, t.dec, d.typ, fname(d.callee), t.typ))
-		e, oke := enc[t.typ]
-		c.Check("R2.tags", "encode/"+t.typ, e.pos, oke && e.tag == int64(t.tag) && e.callee == encM[t.enc].Obj && e.ordered,
-			fmt.Sprintf("*%s must be written as tag %q followed by %s(x.Value) (found: tag %q, encoder %v, tag-first=%v): otherwise the decoder reads the value back as another type", t.typ, t.tag, t.enc, rune(e.tag), fname(e.callee), e.ordered))
-	}
-	// inline commands only at depth 0, and only for an unknown tag
-	gd := cfgq.Of(c.Program, decodeResp)
-	depth := param(info, decodeResp, 0)
-	calls := flow.FindCalls(decodeResp.Decl.Body, func(call *ast.CallExpr) bool { return core.CalleeFunc(info, call) == inline.Obj })
-	if len(calls) != 1 || depth == nil {
-		c.Undecidedf("R2.depth", "inline-fallback", decodeResp.Decl.Pos(), "expected exactly one call of decodeSingleLineBulkBytesArray in decodeResp, found %d", len(calls))
-	} else {
-		inDefault := deflt != nil && deflt.Pos() <= calls[0].Pos() && calls[0].End() <= deflt.End()
-		p, found := gd.Find(calls[0])
-		if !inDefault || !found {
-			c.Undecidedf("R2.depth", "inline-fallback", calls[0].Pos(), "the inline-command fallback is not in the default arm of the tag switch")
-		} else {
-			ok, w := flow.OnlyVia(gd, p, func(f cfgq.Fact) bool { return flow.CmpIs(info, f, flow.IsObj(info, depth), token.EQL, 0) || flow.CmpIs(info, f, flow.IsObj(info, depth), token.LEQ, 0) })
-			c.Check("R2.depth", "inline-fallback", calls[0].Pos(), ok,
-				"the inline-command parser must be reachable only at depth 0: an unknown type byte inside an array has to yield an error, not a value", w...)
-		}
-	}
-	// recursion passes depth+k, entry points pass 0
-	dparam := param(info, decodeArray, 0)
-	entries := 0
-	for _, fd := range r.decls() {
-		for _, call := range flow.FindCalls(fd.Body, func(call *ast.CallExpr) bool { return core.CalleeFunc(info, call) == decodeResp.Obj }) {
-			if len(call.Args) != 1 {
-				continue
-			}
-			arg := ast.Unparen(call.Args[0])
-			if fd == decodeArray.Decl {
-				key := "nested-depth/" + fd.Name.Name
-				if b := pat.Expr("_depth + _k").Match(info, arg, pat.Binds{"_depth": decodeArray.Decl.Type.Params.List[0].Names[0]}); b != nil && dparam != nil {
-					k, isC := core.IntConst(info, b["_k"].(ast.Expr))
-					if !isC {
-						c.Undecidedf("R2.depth", key, call.Pos(), "depth increment %s is not a constant", c.Src(b["_k"]))
-					} else {
-						c.Check("R2.depth", key, call.Pos(), k >= 1, "array elements must be decoded at a depth greater than their array's, or inline commands would be accepted inside arrays")
-					}
-				} else if flow.IsObj(info, dparam)(arg) || isConst(info, arg, 0) {
-					c.Failf("R2.depth", key, call.Pos(), "array elements are decoded at depth %s: at top level that is depth 0, so an unknown type byte inside an array is parsed as an inline command instead of yielding an error", c.Src(arg))
-				} else if k, ok := core.IntConst(info, arg); ok && k > 0 {
-					c.Okf("R2.depth", key, call.Pos(), "constant non-zero depth")
-				} else {
-					c.Undecidedf("R2.depth", key, call.Pos(), "depth argument %s not recognised", c.Src(arg))
-				}
-				continue
-			}
-			entries++
-			if isConst(info, arg, 0) {
-				c.Okf("R2.depth", "entry/"+fd.Name.Name, call.Pos(), "top-level decode starts at depth 0")
-			} else {
-				c.Undecidedf("R2.depth", "entry/"+fd.Name.Name, call.Pos(), "top-level decode starts at depth %s", c.Src(arg))
-			}
-		}
-	}
-	if entries < 2 {
-		c.Undecidedf("instances", "R2.depth", token.NoPos, "only %d top-level calls of decodeResp found, 2 confirmed by hand", entries)
-	}
-	c.Expect("R2.depth", 4)
-}
-
-func recvOf(f *types.Func) types.Type {
-	if sig, _ := f.Type().(*types.Signature); sig != nil && sig.Recv() != nil {
-		return sig.Recv().Type()
-	}
-	return nil
-}
-
-func fname(f *types.Func) string {
-	if f == nil {
-		return "<none>"
-	}
-	return f.Name()
-}
-
-// ---------------------------------------------------------------------------
-// R3 length domain + R5 (decoder side)
-
-func (r *rs) lengthDomain(name, _ string) {
-	c, info := r.c, r.info
-	fn := r.method("Decoder", name)
-	if fn == nil {
-		return
-	}
-	g := cfgq.Of(c.Program, fn)
-	as, b := pat.Stmt("_n, _err = _d.decodeInt()").Find(info, fn.Decl.Body, nil)
-	if as == nil {
-		c.Undecidedf("R3.length", name+"/length", fn.Decl.Pos(), "cannot find `n, err := d.decodeInt()`")
-		return
-	}
-	n := flow.Obj(info, b["_n"])
-	from, ok := g.Find(as)
-	if n == nil || !ok || flow.Assignments(info, fn.Decl.Body, n) != 1 {
-		c.Undecidedf("R3.length", name+"/length", as.Pos(), "the decoded length is not a single-assignment variable")
-		return
-	}
-	isN := flow.IsObj(info, n)
-	mentions := func(m ast.Node) bool { return core.Mentions(info, m, n) }
-	var allocNode ast.Node
-	classify := func(m ast.Node) string {
-		if ret, ok := m.(*ast.ReturnStmt); ok {
-			switch {
-			case flow.ErrReturn(info, fn.Decl.Body, ret):
-				return "error"
-			case len(ret.Results) == 2 && core.IsNil(info, ret.Results[0]) && core.IsNil(info, ret.Results[1]):
-				return "nil"
-			}
-			return "other"
-		}
-		hit := false
-		for _, call := range cfgq.ExecCalls(m) {
-			if flow.IsBuiltin(info, call, "make") && len(call.Args) >= 2 && mentions(call.Args[1]) {
-				hit = true
-			}
-		}
-		if hit {
-			allocNode = m
-			return "alloc"
-		}
-		return ""
-	}
-	errEdge := flow.ErrEdge(g)
-	out, imprecise := flow.Outcomes(g, from, isN, mentions, classify, errEdge)
-	if imprecise {
-		c.Undecidedf("R3.length", name+"/length", as.Pos(), "the length is tested in a form other than a comparison with a constant")
-		return
-	}
-	inf, ninf := int64(math.MaxInt64), int64(math.MinInt64)
-	overlap := func(set []flow.Interval, lo, hi int64) *flow.Interval {
-		for _, v := range set {
-			if v.Lo <= hi && v.Hi >= lo {
-				x := flow.Interval{Lo: max(v.Lo, lo), Hi: min(v.Hi, hi)}
-				return &x
-			}
-		}
-		return nil
-	}
-	neg := overlap(out["alloc"], ninf, -1)
-	c.Check("R3.length", name+"/alloc", as.Pos(), neg == nil && len(out["alloc"]) > 0,
-		fmt.Sprintf("the buffer allocation must be reached only for n >= 0 (reached for %s): a negative length is malformed input and has to yield an error (or nil for -1), not an allocation/index panic or an empty value", flow.SetString(out["alloc"])))
-	c.Check("R3.length", name+"/nil", as.Pos(), flow.SameSet(out["nil"], []flow.Interval{{Lo: -1, Hi: -1}}),
-		fmt.Sprintf("`return nil, nil` must be reached exactly for n = -1 (reached for %s): otherwise the nil bulk/array is rejected, or a malformed length below -1 yields a value", flow.SetString(out["nil"])))
-	bad := overlap(out["error"], -1, math.MaxInt32)
-	miss := !flow.SameSet(flow.Union(append(append([]flow.Interval{}, out["error"]...), flow.Interval{Lo: -1, Hi: inf})), []flow.Interval{{Lo: ninf, Hi: inf}})
-	c.Check("R3.length", name+"/error", as.Pos(), bad == nil && !miss,
-		fmt.Sprintf("the length error must be returned for every n <= -2 and for no n in [-1, 2^31) (returned for %s)", flow.SetString(out["error"])))
-	if o := out["other"]; len(o) > 0 {
-		if overlap(o, -1, -1) != nil {
-			c.Failf("R5.nil", name+"/minus-one", as.Pos(), "for n = -1 a value other than the literal nil is returned: nil and empty are no longer distinguished after a round trip")
-		} else {
-			c.Undecidedf("R3.length", name+"/other", as.Pos(), "an unrecognised successful return is reached for n in %s before the allocation", flow.SetString(o))
-		}
-	} else {
-		c.Okf("R5.nil", name+"/minus-one", as.Pos(), "the only successful return before the allocation yields the literal nil")
-	}
-	if len(out["fall"]) > 0 {
-		c.Undecidedf("R3.length", name+"/fall", as.Pos(), "control falls off the function")
-	}
-	// R5: n >= 0 returns the freshly made buffer
-	if allocNode == nil {
-		return
-	}
-	ap, _ := g.Find(allocNode)
-	var valuePat *pat.Pattern
-	var ab pat.Binds
-	if name == "decodeBulkBytes" {
-		_, ab = pat.Stmt("_b = make([]byte, _n + _k)").Find(info, allocNode, pat.Binds{"_n": b["_n"]})
-		valuePat = pat.Stmt("return _b[:_n], nil")
-	} else {
-		_, ab = pat.Stmt("_b = make([]Resp, _n)").Find(info, allocNode, pat.Binds{"_n": b["_n"]})
-		valuePat = pat.Stmt("return _b, nil")
-	}
-	if ab == nil {
-		c.Undecidedf("R5.nil", name+"/fresh-buffer", allocNode.Pos(), "allocation %s not of the recognised form", c.Src(allocNode))
-		return
-	}
-	nret := 0
-	for _, p := range g.Points(func(m ast.Node) bool { _, ok := m.(*ast.ReturnStmt); return ok }) {
-		ret := p.Node().(*ast.ReturnStmt)
-		if flow.ErrReturn(info, fn.Decl.Body, ret) || g.Path(cfgq.Query{From: ap, After: true, Target: func(m ast.Node) bool { return m == ast.Node(ret) }, AvoidEdge: errEdge}) == nil {
-			continue
-		}
-		nret++
-		switch {
-		case valuePat.Match(info, ret, ab) != nil:
-			c.Okf("R5.nil", name+"/fresh-buffer", ret.Pos(), "n >= 0 returns the buffer made for it (never nil)")
-		case len(ret.Results) > 0 && core.IsNil(info, ret.Results[0]):
-			c.Failf("R5.nil", name+"/fresh-buffer", ret.Pos(), "after the allocation (n >= 0) the literal nil is returned without an error: an empty value decodes as nil")
-		default:
-			// `return nil, err` with err possibly nil and similar
-			c.Undecidedf("R5.nil", name+"/fresh-buffer", ret.Pos(), "successful return %s after the allocation is not the recognised value", c.Src(ret))
-		}
-	}
-	if nret == 0 {
-		c.Undecidedf("R5.nil", name+"/fresh-buffer", allocNode.Pos(), "no successful return after the allocation")
-	}
-	if name == "decodeArray" {
-		r.arrayLoop(fn, g, ab)
-	}
-}
-
-// arrayLoop: every element slot is filled exactly once by a nested decode (R6 reader side).
-func (r *rs) arrayLoop(fn *core.Fn, g *cfgq.Graph, ab pat.Binds) {
-	c, info := r.c, r.info
-	var loop ast.Stmt
-	core.Inspect(fn.Decl.Body, func(m ast.Node) bool {
-		switch s := m.(type) {
-		case *ast.ForStmt:
-			b := pat.Stmt("_i = 0").Match(info, s.Init, ab)
-			if b != nil && s.Cond != nil && s.Post != nil && pat.Expr("_i < len(_b)").Match(info, s.Cond, b) != nil && pat.Stmt("_i++").Match(info, s.Post, b) != nil {
-				if n, _ := pat.Stmt("_b[_i], _e = _d.decodeResp(_x)").Find(info, s.Body, b); n != nil {
-					loop = s
-				}
-			}
-		case *ast.RangeStmt:
-			if pat.Same(info, s.X, ab["_b"]) && s.Key != nil {
-				if n, _ := pat.Stmt("_b[_i], _e = _d.decodeResp(_x)").Find(info, s.Body, pat.Binds{"_b": ab["_b"], "_i": s.Key}); n != nil {
-					loop = s
-				}
-			}
-		}
-		return true
-	})
-	if loop == nil {
-		c.Undecidedf("R6.grammar", "decodeArray/elements", fn.Decl.Pos(), "cannot find the loop that decodes one element into each slot of the made array")
-		return
-	}
-	c.Okf("R6.grammar", "decodeArray/elements", loop.Pos(), "each of the n slots is filled by one nested decode, in index order")
-}
-
-// ---------------------------------------------------------------------------
-// R4 terminator checks
-
-func (r *rs) r4() {
-	c, info := r.c, r.info
-	// bulk body
-	if fn := r.method("Decoder", "decodeBulkBytes"); fn != nil {
-		g := cfgq.Of(c.Program, fn)
-		_, b := pat.Stmt("_n, _err = _d.decodeInt()").Find(info, fn.Decl.Body, nil)
-		var mk ast.Node
-		if b != nil {
-			mk, b = pat.Stmt("_b = make([]byte, _n + _k)").Find(info, fn.Decl.Body, pat.Binds{"_n": b["_n"]})
-		}
-		if mk == nil {
-			c.Undecidedf("R4.term", "decodeBulkBytes/buffer", fn.Decl.Pos(), "cannot find `b := make([]byte, n+k)`")
-		} else {
-			k, isC := core.IntConst(info, b["_k"].(ast.Expr))
-			if !isC {
-				c.Undecidedf("R4.term", "decodeBulkBytes/buffer", mk.Pos(), "buffer slack %s is not a constant", c.Src(b["_k"]))
-			} else {
-				c.Check("R4.term", "decodeBulkBytes/buffer", mk.Pos(), k == 2, fmt.Sprintf("the bulk buffer must hold the payload plus exactly the 2 terminator bytes (found n+%d): otherwise the CR LF are not consumed with the value, or bytes of the next value are swallowed", k))
-			}
-			bobj := flow.Obj(info, b["_b"])
-			rf := flow.FindCalls(fn.Decl.Body, func(call *ast.CallExpr) bool {
-				return core.IsFunc(core.CalleeFunc(info, call), "io", "", "ReadFull") && len(call.Args) == 2 && r.isField(call.Args[0], "Decoder", "r") && flow.IsObj(info, bobj)(call.Args[1])
-			})
-			rets := g.Points(func(m ast.Node) bool { return pat.Stmt("return _b[:_n], nil").Match(info, m, b) != nil })
-			if len(rf) != 1 || len(rets) == 0 || bobj == nil {
-				c.Undecidedf("R4.term", "decodeBulkBytes/crlf", mk.Pos(), "cannot find io.ReadFull(d.r, b) and `return b[:n], nil`")
-			} else {
-				for _, p := range rets {
-					for _, t := range []struct {
-						pat  string
-						ch   int64
-						name string
-					}{{"_b[_n]", '\r', "cr"}, {"_b[_n + 1]", '\n', "lf"}} {
-						isX := func(e ast.Expr) bool { return pat.Expr(t.pat).Match(info, e, b) != nil }
-						ok, w := flow.OnlyVia(g, p, func(f cfgq.Fact) bool { return flow.CmpIs(info, f, isX, token.EQL, t.ch) })
-						c.Check("R4.term", "decodeBulkBytes/"+t.name, p.Node().Pos(), ok,
-							fmt.Sprintf("the bulk value may be returned only after byte %s was found to be %q: a bulk not followed by CR LF is malformed and must yield an error", strings.ReplaceAll(t.pat, "_", ""), rune(t.ch)), w...)
-					}
-				}
-				// no other successful return after the read
-				rp, _ := g.Find(rf[0])
-				w := g.Path(cfgq.Query{From: rp, After: true, AvoidEdge: flow.ErrEdge(g), Target: func(m ast.Node) bool {
-					ret, ok := m.(*ast.ReturnStmt)
-					return ok && !flow.ErrReturn(info, fn.Decl.Body, ret) && pat.Stmt("return _b[:_n], nil").Match(info, ret, b) == nil
-				}})
-				c.Check("R4.term", "decodeBulkBytes/only-value", rf[0].Pos(), w == nil, "after the body was read every return is either the checked value b[:n] or an error", w...)
-			}
-		}
-	}
-	// text lines
-	r.line("decodeText", true)
-	r.line("decodeSingleLineBulkBytesArray", false)
-	// integers
-	if fn := r.method("Decoder", "decodeInt"); fn != nil {
-		g := cfgq.Of(c.Program, fn)
-		_, b := pat.Stmt("_b, _err = _d.decodeText()").Find(info, fn.Decl.Body, nil)
-		var as ast.Node
-		if b != nil {
-			as, b = pat.Stmt("_v, _e = strconv.ParseInt(string(_b), _base, _bits)").Find(info, fn.Decl.Body, b)
-		}
-		if as == nil {
-			c.Undecidedf("R4.term", "decodeInt/parse", fn.Decl.Pos(), "cannot find `v, e := strconv.ParseInt(string(b), base, bits)` over the text line")
-		} else {
-			base, ok1 := core.IntConst(info, b["_base"].(ast.Expr))
-			bits, ok2 := core.IntConst(info, b["_bits"].(ast.Expr))
-			if !ok1 || !ok2 {
-				c.Undecidedf("R4.term", "decodeInt/parse", as.Pos(), "base/bit size are not constants")
-			} else {
-				c.Check("R4.term", "decodeInt/parse", as.Pos(), base == 10 && bits == 64, fmt.Sprintf("numeric fields are decimal 64-bit integers (found base %d, %d bits): otherwise valid integers are rejected or mis-read", base, bits))
-			}
-			eobj := flow.Obj(info, b["_e"])
-			n := 0
-			for _, p := range g.Points(func(m ast.Node) bool {
-				ret, ok := m.(*ast.ReturnStmt)
-				return ok && !flow.ErrReturn(info, fn.Decl.Body, ret) && core.Mentions(info, ret, flow.Obj(info, b["_v"]))
-			}) {
-				n++
-				ok, w := flow.OnlyVia(g, p, func(f cfgq.Fact) bool {
-					isNil, ok := flow.NilCmp(info, f, flow.IsObj(info, eobj))
-					return ok && isNil
-				})
-				c.Check("R4.term", "decodeInt/error-returned", p.Node().Pos(), ok, "the parsed number may be returned only when ParseInt reported no error: a non-numeric length or integer must yield an error", w...)
-			}
-			if n == 0 {
-				c.Undecidedf("R4.term", "decodeInt/error-returned", as.Pos(), "no return of the parsed value found")
-			}
-		}
-	}
-	c.Expect("R4.term", 11)
-}
-
-// line checks a function that reads one LF-terminated line from Decoder.r.
-func (r *rs) line(name string, returnsPrefix bool) {
-	c, info := r.c, r.info
-	fn := r.method("Decoder", name)
-	if fn == nil {
-		return
-	}
-	g := cfgq.Of(c.Program, fn)
-	as, b := pat.Stmt("_b, _err = _d.r.ReadBytes(_delim)").Find(info, fn.Decl.Body, nil)
-	if as == nil {
-		c.Undecidedf("R4.term", name+"/line", fn.Decl.Pos(), "cannot find `b, err := d.r.ReadBytes(delim)`")
-		return
-	}
-	if d, ok := core.IntConst(info, b["_delim"].(ast.Expr)); !ok {
-		c.Undecidedf("R4.term", name+"/delimiter", as.Pos(), "delimiter is not a constant")
-	} else {
-		c.Check("R4.term", name+"/delimiter", as.Pos(), d == '\n', fmt.Sprintf("a line ends at LF (found delimiter %q): any other delimiter leaves the terminator in the stream or swallows the next value", rune(d)))
-	}
-	nd, nb := pat.Stmt("_n = len(_b) - _k").Find(info, fn.Decl.Body, b)
-	if nd == nil || !isConst(info, nb["_k"].(ast.Expr), 2) {
-		c.Undecidedf("R4.term", name+"/crlf", as.Pos(), "cannot find `n := len(b) - 2`")
-		return
-	}
-	nobj := flow.Obj(info, nb["_n"])
-	ap, _ := g.Find(as)
-	isCR := func(e ast.Expr) bool { return pat.Expr("_b[_n]").Match(info, e, nb) != nil }
-	k := 0
-	for _, p := range g.Points(func(m ast.Node) bool {
-		ret, ok := m.(*ast.ReturnStmt)
-		return ok && !flow.ErrReturn(info, fn.Decl.Body, ret)
-	}) {
-		ret := p.Node()
-		if g.Path(cfgq.Query{From: ap, After: true, AvoidEdge: flow.ErrEdge(g), Target: func(m ast.Node) bool { return m == ret }}) == nil {
-			continue
-		}
-		k++
-		ok1, w1 := flow.OnlyVia(g, p, func(f cfgq.Fact) bool { return flow.CmpIs(info, f, flow.IsObj(info, nobj), token.GEQ, 0) })
-		c.Check("R4.term", name+"/min-length", ret.Pos(), ok1, "a value may be returned only when the line has at least 2 bytes (n >= 0): the 1-byte line \"\\n\" must yield an error, not an index panic", w1...)
-		ok2, w2 := flow.OnlyVia(g, p, func(f cfgq.Fact) bool { return flow.CmpIs(info, f, isCR, token.EQL, '\r') })
-		c.Check("R4.term", name+"/cr", ret.Pos(), ok2, "a value may be returned only when the byte before the LF is CR: a line without CR LF is malformed and must yield an error", w2...)
-		if returnsPrefix {
-			c.Check("R4.term", name+"/payload", ret.Pos(), pat.Stmt("return _b[:_n], nil").Match(info, ret, nb) != nil, "the text value is the line without its 2 terminator bytes (b[:n])")
-		}
-	}
-	if k == 0 {
-		c.Undecidedf("R4.term", name+"/crlf", as.Pos(), "no successful return after the line was read")
-	}
-}
-
-// ---------------------------------------------------------------------------
-// R5 encoder side: -1 iff nil
-
-func (r *rs) r5enc(name string) {
-	c, info := r.c, r.info
-	fn, encodeInt := r.method("encoder", name), r.method("encoder", "encodeInt")
-	if fn == nil || encodeInt == nil {
-		return
-	}
-	g := cfgq.Of(c.Program, fn)
-	v := param(info, fn, 0)
-	isV := flow.IsObj(info, v)
-	nilFact := func(want bool) func(cfgq.Fact) bool {
-		return func(f cfgq.Fact) bool {
-			isNil, ok := flow.NilCmp(info, f, isV)
-			return ok && isNil == want
-		}
-	}
-	minus, length := 0, 0
-	for _, call := range flow.FindCalls(fn.Decl.Body, func(call *ast.CallExpr) bool { return core.CalleeFunc(info, call) == encodeInt.Obj && len(call.Args) == 1 }) {
-		p, ok := g.Find(call)
-		if !ok {
-			continue
-		}
-		arg := call.Args[0]
-		switch {
-		case isConst(info, arg, -1):
-			minus++
-			ok, w := flow.OnlyVia(g, p, nilFact(true))
-			c.Check("R5.nil", name+"/minus-one-iff-nil", call.Pos(), ok, "length -1 may be written only when the value == nil: a non-nil empty value must be written with length 0 or it decodes as nil", w...)
-		case lenOf(info, fn.Decl.Body, arg) == v && v != nil:
-			length++
-			ok, w := flow.OnlyVia(g, p, nilFact(false))
-			c.Check("R5.nil", name+"/length-iff-non-nil", call.Pos(), ok, "len(value) may be written only when the value != nil: a nil value must be written as -1 or it decodes as empty", w...)
-		default:
-			c.Undecidedf("R5.nil", name+"/length", call.Pos(), "length argument %s not recognised", c.Src(arg))
-		}
-	}
-	if minus != 1 || length != 1 {
-		c.Undecidedf("R5.nil", name+"/arms", fn.Decl.Pos(), "expected one encodeInt(-1) and one encodeInt(len(v)), found %d and %d", minus, length)
-	}
-}
-
-// ---------------------------------------------------------------------------
-// R6 writer grammar
-
-func (r *rs) r6() {
-	c, info := r.c, r.info
-	isW := func(e ast.Expr) bool { return r.isField(e, "encoder", "w") }
-	wcall := func(name string, arg func(ast.Expr) bool) func(*ast.CallExpr) bool {
-		return func(call *ast.CallExpr) bool {
-			return flow.MethodOn(call, name, isW) && len(call.Args) == 1 && arg(call.Args[0])
-		}
-	}
-	isStrConst := func(e ast.Expr) bool { _, ok := core.StringConst(info, e); return ok }
-	// checks the constant terminator emitted by fn and returns the step locating it
-	crlf := func(fn *core.Fn, g *cfgq.Graph) flow.Step {
-		for _, call := range flow.FindCalls(fn.Decl.Body, wcall("WriteString", isStrConst)) {
-			s, _ := core.StringConst(info, call.Args[0])
-			c.Check("R6.grammar", fn.Decl.Name.Name+"/terminator", call.Pos(), s == "\r\n", fmt.Sprintf("the terminator written is %q, RESP requires CR LF: the decoder rejects (or mis-frames) what the encoder produced", s))
-		}
-		return flow.Step{Name: "write CRLF", Is: flow.CallOn(g, wcall("WriteString", isStrConst))}
-	}
-	seq := func(fn *core.Fn, g *cfgq.Graph, wcalls int, steps ...flow.Step) {
-		name := fn.Decl.Name.Name
-		if n := len(flow.FindCalls(fn.Decl.Body, func(call *ast.CallExpr) bool {
-			sel, ok := ast.Unparen(call.Fun).(*ast.SelectorExpr)
-			return ok && isW(sel.X)
-		})); n != wcalls {
-			c.Undecidedf("R6.grammar", name+"/sequence", fn.Decl.Pos(), "%d writes on the buffered writer, %d expected", n, wcalls)
-			return
-		}
-		problem, w, und := flow.Sequence(g, steps)
-		if und {
-			c.Undecidedf("R6.grammar", name+"/sequence", fn.Decl.Pos(), "%s", problem)
-			return
-		}
-		var names []string
-		for _, s := range steps {
-			names = append(names, s.Name)
-		}
-		c.Check("R6.grammar", name+"/sequence", fn.Decl.Pos(), problem == "", fmt.Sprintf("%s must emit %s in this order on every successful path (%s): the decoder expects exactly this framing", name, strings.Join(names, ", "), problem), w...)
-	}
-	if fn := r.method("encoder", "encodeType"); fn != nil {
-		t := param(info, fn, 0)
-		calls := flow.FindCalls(fn.Decl.Body, wcall("WriteByte", func(e ast.Expr) bool { return flow.IsObj(info, t)(unconv(info, e)) }))
-		if len(calls) == 1 {
-			c.Okf("R6.grammar", "encodeType/sequence", fn.Decl.Pos(), "writes the tag byte it is given")
-		} else {
-			c.Undecidedf("R6.grammar", "encodeType/sequence", fn.Decl.Pos(), "cannot find w.WriteByte(byte(t))")
-		}
-	}
-	for _, tc := range []struct{ name, method string }{{"encodeText", "Write"}, {"encodeString", "WriteString"}} {
-		if fn := r.method("encoder", tc.name); fn != nil {
-			g := cfgq.Of(c.Program, fn)
-			p := param(info, fn, 0)
-			seq(fn, g, 2, flow.Step{Name: "write payload", Is: flow.CallOn(g, wcall(tc.method, flow.IsObj(info, p)))}, crlf(fn, g))
-		}
-	}
-	encodeString, itos := r.method("encoder", "encodeString"), c.Func(pkg, "", "itos")
-	if fn := r.method("encoder", "encodeInt"); fn != nil && encodeString != nil && itos != nil {
-		n, _ := pat.Expr("_e.encodeString(itos(_v))").Find(info, fn.Decl.Body, pat.Binds{"_v": fn.Decl.Type.Params.List[0].Names[0]})
-		if n != nil {
-			c.Okf("R6.grammar", "encodeInt/sequence", fn.Decl.Pos(), "an integer is its decimal rendering followed by CRLF")
-		} else {
-			c.Undecidedf("R6.grammar", "encodeInt/sequence", fn.Decl.Pos(), "cannot find e.encodeString(itos(v))")
-		}
-	}
-	encodeInt, encodeResp := r.method("encoder", "encodeInt"), r.method("encoder", "encodeResp")
-	if encodeInt == nil || encodeResp == nil {
-		return
-	}
-	lenStep := func(g *cfgq.Graph, v types.Object) flow.Step {
-		return flow.Step{Name: "write len(value) line", Is: flow.CallOn(g, func(call *ast.CallExpr) bool {
-			return core.CalleeFunc(info, call) == encodeInt.Obj && len(call.Args) == 1 && lenOf(info, g.Body, call.Args[0]) == v
-		})}
-	}
-	if fn := r.method("encoder", "encodeBulkBytes"); fn != nil {
-		g := cfgq.Of(c.Program, fn)
-		p := param(info, fn, 0)
-		seq(fn, g, 2, lenStep(g, p), flow.Step{Name: "write payload", Is: flow.CallOn(g, wcall("Write", flow.IsObj(info, p)))}, crlf(fn, g))
-	}
-	if fn := r.method("encoder", "encodeArray"); fn != nil {
-		g := cfgq.Of(c.Program, fn)
-		p := param(info, fn, 0)
-		ab := pat.Binds{"_a": fn.Decl.Type.Params.List[0].Names[0]}
-		var elem *ast.CallExpr
-		core.Inspect(fn.Decl.Body, func(m ast.Node) bool {
-			switch s := m.(type) {
-			case *ast.ForStmt:
-				b := pat.Stmt("_i = 0").Match(info, s.Init, ab)
-				if b != nil && s.Cond != nil && s.Post != nil && pat.Expr("_i < len(_a)").Match(info, s.Cond, b) != nil && pat.Stmt("_i++").Match(info, s.Post, b) != nil {
-					if n, _ := pat.Expr("_e.encodeResp(_a[_i])").Find(info, s.Body, b); n != nil {
-						elem = n.(*ast.CallExpr)
-					}
-				}
-			case *ast.RangeStmt:
-				if pat.Same(info, s.X, ab["_a"]) && s.Value != nil {
-					if n, _ := pat.Expr("_e.encodeResp(_x)").Find(info, s.Body, pat.Binds{"_x": s.Value}); n != nil {
-						elem = n.(*ast.CallExpr)
-					}
-				}
-			}
-			return true
-		})
-		nresp := len(flow.FindCalls(fn.Decl.Body, func(call *ast.CallExpr) bool { return core.CalleeFunc(info, call) == encodeResp.Obj }))
-		if elem == nil || nresp != 1 {
-			c.Undecidedf("R6.grammar", "encodeArray/sequence", fn.Decl.Pos(), "cannot find the loop that encodes every element of the array once, in index order")
-		} else {
-			// the loop may run zero times, so only the order is required: count line first
-			ls := lenStep(g, p)
-			ep, _ := g.Find(elem)
-			ok, w := g.Dominated(ep, ls.Is)
-			if len(g.Points(ls.Is)) != 1 {
-				c.Undecidedf("R6.grammar", "encodeArray/sequence", fn.Decl.Pos(), "cannot find the single encodeInt(len(a)) call")
-			} else {
-				c.Check("R6.grammar", "encodeArray/sequence", fn.Decl.Pos(), ok, "the element count line must be written before the first element: the decoder reads the count first", w...)
-			}
-		}
-	}
-	c.Expect("R6.grammar", 10)
-}
-
-// ---------------------------------------------------------------------------
-// R7 integer table bias
-
-func (r *rs) r7() {
-	c, info := r.c, r.info
-	fn := c.Func(pkg, "", "itos")
-	if fn == nil {
-		return
-	}
-	g := cfgq.Of(c.Program, fn)
-	i := param(info, fn, 0)
-	ib := pat.Binds{"_i": fn.Decl.Type.Params.List[0].Names[0]}
-	ret, b := pat.Stmt("return _tab[_n]").Find(info, fn.Decl.Body, ib)
-	var def ast.Node
-	if ret != nil {
-		def, b = pat.Stmt("_n = _i + _k").Find(info, fn.Decl.Body, b)
-	}
-	if def == nil || i == nil {
-		c.Undecidedf("R7.bias", "itos/lookup", fn.Decl.Pos(), "cannot find `n := i + k ... return table[n]`")
-		return
-	}
-	tab := flow.Obj(info, b["_tab"])
-	k2, okk := core.IntConst(info, b["_k"].(ast.Expr))
-	nobj := flow.Obj(info, b["_n"])
-	if tab == nil || !okk || nobj == nil || flow.Assignments(info, fn.Decl.Body, nobj) != 1 {
-		c.Undecidedf("R7.bias", "itos/lookup", def.Pos(), "table, bias or index variable not recognised")
-		return
-	}
-	rp, _ := g.Find(ret)
-	ok1, w1 := flow.OnlyVia(g, rp, func(f cfgq.Fact) bool { return flow.CmpIs(info, f, flow.IsObj(info, nobj), token.GEQ, 0) })
-	c.Check("R7.bias", "itos/lower-guard", ret.Pos(), ok1, "the table lookup must be guarded by n >= 0: integers below the table's range would index out of range", w1...)
-	ok2, w2 := flow.OnlyVia(g, rp, func(f cfgq.Fact) bool {
-		x, y, op, ok := flow.Rel(f)
-		if !ok {
-			return false
-		}
-		if op == token.GTR {
-			x, y, op = y, x, token.LSS
-		}
-		return op == token.LSS && flow.IsObj(info, nobj)(x) && lenOf(info, fn.Decl.Body, y) == tab
-	})
-	c.Check("R7.bias", "itos/upper-guard", ret.Pos(), ok2, "the table lookup must be guarded by n < len(table): integers above the table's range would index out of range", w2...)
-	// fallback
-	fb, _ := pat.Stmt("return strconv.FormatInt(_i, _base)").Find(info, fn.Decl.Body, ib)
-	if fb == nil {
-		c.Undecidedf("R7.bias", "itos/fallback", fn.Decl.Pos(), "cannot find `return strconv.FormatInt(i, 10)`")
-	} else {
-		c.Check("R7.bias", "itos/fallback", fb.Pos(), isConst(info, fb.(*ast.ReturnStmt).Results[0].(*ast.CallExpr).Args[1], 10), "integers outside the table are rendered in base 10")
-	}
-	// the fill site
-	fills := 0
-	for _, fd := range r.decls() {
-		core.Inspect(fd.Body, func(m ast.Node) bool {
-			fs, ok := m.(*ast.ForStmt)
-			if !ok || fs.Init == nil || fs.Cond == nil || fs.Post == nil {
-				return true
-			}
-			jb := pat.Stmt("_j = 0").Match(info, fs.Init, nil)
-			if jb == nil {
-				return true
-			}
-			var fill ast.Node
-			var fb pat.Binds
-			for _, p := range []string{"_t[_j] = strconv.Itoa(_j - _k)", "_t[_j] = strconv.FormatInt(int64(_j - _k), 10)", "_t[_j] = strconv.FormatInt(int64(_j) - _k, 10)"} {
-				if fill == nil {
-					fill, fb = pat.Stmt(p).Find(info, fs.Body, jb)
-				}
-			}
-			if fill == nil || flow.Obj(info, fb["_t"]) != tab {
-				return true
-			}
-			fills++
-			k1, isC := core.IntConst(info, fb["_k"].(ast.Expr))
-			if !isC {
-				c.Undecidedf("R7.bias", "fill/bias", fill.Pos(), "fill bias is not a constant")
-				return true
-			}
-			c.Check("R7.bias", "fill/bias", fill.Pos(), k1 == k2, fmt.Sprintf("slot j holds the rendering of j-%d but itos looks v up at v+%d: every table hit renders v%+d instead of v", k1, k2, k2-k1))
-			full := pat.Expr("_j < len(_t)").Match(info, fs.Cond, fb) != nil && pat.Stmt("_j++").Match(info, fs.Post, fb) != nil
-			if full {
-				c.Okf("R7.bias", "fill/complete", fs.Pos(), "every slot of the table is filled")
-			} else {
-				c.Undecidedf("R7.bias", "fill/complete", fs.Pos(), "fill loop bounds not recognised")
-			}
-			return true
-		})
-	}
-	if fills != 1 {
-		c.Undecidedf("R7.bias", "fill/site", fn.Decl.Pos(), "expected exactly one loop filling the table, found %d", fills)
-	}
 }
